@@ -586,9 +586,14 @@ def run(ctx):
                 base = "E" if root in ("Eng", "Mgr") else root
                 tree = gen_tree(zoo, rng, base)
                 recurs = tree_recurs(zoo, root, tree)
-                if not recurs and base in EXPR_ROOT and rng.random() < 0.3:
+                # a query-time expression is not refreshed on an instance that is already
+                # loaded, so its class must be reachable through the explicit path only:
+                # no mapper-level eager relationship may target it
+                eager_targets = {ri.target for ri in zoo.rels.values() if ri.lazy != "select"}
+                if not recurs and base in EXPR_ROOT and base not in eager_targets and rng.random() < 0.5:
                     q["expr_root"] = True
-                if not recurs and base == "A" and "bs" in tree and rng.random() < 0.4 and not q["preload"]:
+                if (not recurs and base == "A" and "bs" in tree and "B" not in eager_targets
+                        and rng.random() < 0.6 and not q["preload"]):
                     # (not in a preloaded session: an instance keeps the loader options of
                     # the query that first loaded it, so a later query's nested
                     # with_expression reaches eager loads but not lazy ones - by design)
@@ -702,7 +707,7 @@ def one_query(ctx, sa, orm, R, zoo, engine, spy, q, tree, rng, warnings):
             continue
         if var["snap"] != base["snap"] or var["other"] != base["other"]:
             d = R.diff_snap(base["snap"], var["snap"]) or R.diff_snap(base["other"], var["other"])
-            mech = classify(zoo, root, tree, assign, q, d)
+            mech = classify(zoo, root, tree, assign, q, d, flavour, rc)
             ctx.violation(
                 f"graph-differ:{mech}",
                 f"loaded graph differs from all-lazy baseline: {d[:3]} assign={witness['assign']} flavour={flavour}",
@@ -759,7 +764,20 @@ def shape_of(q):
         "where": bool(q["where"])}
 
 
-def classify(zoo, root, tree, assign, q, diff=None):
+def deferred_cols(flavour, rc, cname):
+    """Column names a column flavour leaves unloaded on class ``cname`` (see build_options)."""
+    b = "E" if cname in ("Eng", "Mgr") else cname
+    cols = [c for c, _ in PRED_COLS[b]]
+    if flavour in ("defer_root", "defer_nested"):
+        return {cols[rc[0] % len(cols)]}
+    if flavour == "load_only_root":
+        return set(cols) - {cols[rc[0] % len(cols)], cols[rc[1] % len(cols)]}
+    if flavour == "load_only_nested":
+        return set(cols) - {cols[rc[0] % len(cols)]}
+    return set()
+
+
+def classify(zoo, root, tree, assign, q, diff=None, flavour=None, rc=None):
     """Stable mechanism string computed from the witness: the strategy and relationship
     kind of the first path whose target shows a difference (or the set of non-lazy
     strategies in use), plus query features that matter for eager loading."""
@@ -795,6 +813,14 @@ def classify(zoo, root, tree, assign, q, diff=None):
                     cname = ri.target
                 strat = [s]
                 feats.insert(0, ri.direction)
+                if s == "subquery" and ri.direction == "m2o" and flavour and rc:
+                    owner = base if len(p) == 1 else zoo.rel(base, p[0]).target
+                    where = ("defer_root", "load_only_root") if len(p) == 1 else ("defer_nested", "load_only_nested")
+                    if flavour in where and ri.fk_col in deferred_cols(flavour, rc, owner):
+                        # same root cause as the NoSuchColumnError form: the parent row lacks
+                        # the foreign key column; here another alias of the same table is in
+                        # the row and its column is picked up instead
+                        return "subqueryload-m2o-deferred-fk:wrong-target"
                 break
         else:
             feats.insert(0, "column")
